@@ -223,7 +223,7 @@ TABLE["C13"] = {
 # whose theorems are proof obligations of a property
 TIES = {
     "C01": ["X86", "Install", "InstallGeneral"], "C13": ["X86", "A64Emit"], "C10": ["X86", "Install", "SigText", "Interface"], "C11": ["Alloc", "A64Install", "InstallGeneral", "A64MAlloc"], "C12": ["Alloc", "Install", "Corollaries"],
-    "C02": ["Install", "Interface"], "C03": ["Install", "Corollaries"], "C17": ["Install", "Corollaries", "MacFlush", "A64MEmit"], "C15": ["A64", "A64Emit", "A64Install", "A64Long", "A64MEmit"], "C16": ["A32", "Corollaries"],
+    "C02": ["Install", "Interface"], "C03": ["Install", "Corollaries"], "C17": ["Install", "Corollaries", "MacFlush", "A64MEmit", "A64MInstall"], "C15": ["A64", "A64Emit", "A64Install", "A64Long", "A64MEmit", "A64MInstall"], "C16": ["A32", "Corollaries"],
     "C04": ["Interface"], "C05": ["Interface"], "C06": ["Interface"], "C07": ["Interface"], "C09": ["Interface"], "C14": ["Interface"],
 }
 
